@@ -314,8 +314,13 @@ def accIntended (acc : Nat) : List Part → Nat
     let t := acc + p.intended
     if t ≥ MAX_VALUE_MSAT then t else accIntended t ps
 
-/-- `htlc_set.sort()` (by `(channel_id, htlc_id)`) -/
-def sortParts (ps : List Part) : List Part := ps.mergeSort (fun a b => decide (a.id ≤ b.id))
+def insertPart (p : Part) : List Part → List Part
+  | [] => [p]
+  | q :: qs => if p.id ≤ q.id then p :: q :: qs else q :: insertPart p qs
+
+/-- `htlc_set.sort()` (by `(channel_id, htlc_id)`; keys are unique, so any sorting algorithm gives
+    the same list — insertion sort, structurally recursive) -/
+def sortParts (ps : List Part) : List Part := ps.foldr insertPart []
 
 /-- `htlcs.iter().map(|h| h.cltv_expiry).min()` -/
 def minCltv (ps : List Part) : Option Nat := (ps.map (·.cltv)).min?
